@@ -120,6 +120,24 @@ PROPS["C08"] = A("TestSim_C08", PERM_RULE +
     probes=["perm.reload", "fault.store_err"], assumptions=COMMON_ASSUME + ["the reload-twin-run comparison of client-visible answers (DESIGN.md C08 oracle 2/3) is replaced by the direct cache/store comparison plus real reloads inside the run",
         "crash points are exercised by C01 (publish path); here only store failures are injected"])
 
+AUTH_RULE = ("one evaluation = one simulated run of the 'auth' workload: a small population with a root user, plus two fresh probe connections (one long-polling JSON, one gRPC) that send 4-24 strictly "
+    "sequential isolated requests drawn from: handshakes (valid, garbage version, too old, repeated same/different version), logins (password, wrong password, unknown login, unknown scheme, anonymous, "
+    "tokens issued by this server - including tokens collected from earlier replies in the run - bit-flipped, truncated, extended, signed with a foreign key, wrong serial number), privileged requests "
+    "({get}/{sub}/{leave}/{set}/{del}/{pub} with a forged head.sender, notes, extra.obo), account creation (also a login differing only in case), the password-reset flow (reset request, right and wrong "
+    "codes), clock jumps of 30 s to one day (token and code expiry), suspension/un-suspension of accounts by root, reconnects and a server crash/restart on the same simulated disk. ")
+PROPS["C11"] = A("TestSim_C11", AUTH_RULE +
+    "An exact model of (handshake version, user, level) per connection is compared after every request with the server's session (white-box) and with the reply class: nothing but {hi} is served before the "
+    "handshake, nothing privileged before login, failed/expired/suspended/second logins leave the identity unchanged, obo only for root, delivered messages carry the session's user as author and no client-chosen "
+    "sender header, the version cannot change. Non-trivial = a connection that sent at least one request in a wrong state and later a privileged one that was served; distinct = distinct (program hash, schedule hash).",
+    quick=(8, 150, 300), thorough=(16, 3000, 3000), probes=["fault.clock_jump", "fault.crash"], assumptions=COMMON_ASSUME)
+PROPS["C12"] = A("TestSim_C12", AUTH_RULE +
+    "A secret authenticates iff the model says it is valid at that simulated instant (issued token not expired and account live; correct password; reset code not used, not expired, fewer wrong guesses than the cap) "
+    "and then yields exactly the issued user and level; every other secret is refused; a second account whose login differs only in case is refused. "
+    "Non-trivial = at least one accepted secret and at least three differently-invalid secrets judged on handshaken connections; distinct = distinct (program hash, schedule hash).",
+    quick=(8, 150, 300), thorough=(16, 3000, 3000), probes=["fault.clock_jump", "fault.crash", "c12.reset_code_accepted", "c12.reset_code_wrong_guess"],
+    assumptions=COMMON_ASSUME + ["the bit-level mutation space and the API-key byte space are sampled through the workload, not enumerated (pure-function clauses; DESIGN.md section 6)",
+                                 "tokens issued under another key/serial are forged by the harness with the documented layout; backward clock steps are not simulated"])
+
 NOT_APPLICABLE = {
     "C20": "pure functions of one input (id codecs, name spellings, JSON<->protobuf converters): no schedule, clock, fault, crash point or second party for a simulator to decide; see DESIGN.md section 6",
 }
